@@ -10,7 +10,7 @@ import math
 
 import core
 
-IMPORTS = 'From EP Require Import C15.Model C15.Run.'
+IMPORTS = 'From EP Require Import C15.Model C15.Keys C15.Run.'
 Z = core.zlit
 
 
@@ -58,18 +58,22 @@ def run(chk):
     from elementpath.xpath_tokens import XPathMap, XPathArray
     rng = chk.rng
     quick = chk.tier == 'quick'
-    chk.trusted += ['keys are integers in the Coq model (Python == / hash on ints is Z equality); other key types are covered by the '
-                    'same-key observation table (harness-side specification from F&O op:same-key)',
+    chk.trusted += ['the map / array laws are proved over integer keys (Python == / hash on ints is Z equality) and, for put / get / '
+                    'contains / remove / size, over typed keys with the op:same-key relation (C15.Keys: keys of every atomic family '
+                    'as (family, value code) with the codes assigned by the harness table KEYS; Python == on numbers, dates and '
+                    'durations is modelled external as py_eq); map:merge and the constructor on typed keys are covered by the '
+                    'same-key observation table only',
                     'map entry order (dict insertion order) is compared literally with the model; the specification leaves it free']
     for f in ('elementpath/xpath_tokens/maps.py', 'elementpath/xpath_tokens/arrays.py', 'elementpath/xpath31/_xpath31_functions.py',
               'elementpath/xpath31/_xpath31_operators.py', 'elementpath/compare.py'):
         chk.record_source(f)
     chk.forbidden_scan(['C15'])
-    proved = chk.prove(['theories/C15/Model.v', 'theories/C15/Proofs.v', 'theories/C15/Run.v'], 'theories/C15/Properties.v')
+    proved = chk.prove(['theories/C15/Model.v', 'theories/C15/Proofs.v', 'theories/C15/Keys.v', 'theories/C15/KeysProofs.v',
+                        'theories/C15/Run.v'], 'theories/C15/Properties.v')
     model_ok = True
     if not proved:
         try:
-            core.coq_make(['theories/C15/Model.v', 'theories/C15/Run.v'])
+            core.coq_make(['theories/C15/Model.v', 'theories/C15/Keys.v', 'theories/C15/Run.v'])
         except core.CoqError as e:
             chk.notes.append('model does not build: ' + str(e))
             model_ok = False
@@ -211,7 +215,8 @@ def run(chk):
                         chk.corr_fail.append((desc, got, mo))
                         chk.violation('impl-vs-spec', desc, {'impl': got, 'spec(model)': mo})
                     elif not flat:
-                        chk.known('C15-merge-combine-nesting', desc | {'note': 'combined value is nested instead of concatenated'})
+                        chk.corr_fail.append((desc, 'nested value', 'flat sequence'))
+                        chk.violation('impl-vs-spec', desc, {'note': 'combined value is nested instead of concatenated', 'impl': repr(dict(r.items()))})
                 if len(ms) > 1:
                     chk.nontrivial.add(repr(c))
             else:
@@ -251,7 +256,7 @@ def run(chk):
             ("xs:untypedAtomic('1')", "1", False), ("'1'", "1", False), ("true()", "1", False), ("false()", "0", False), ("true()", "'true'", False),
             ("xs:double('INF')", "xs:float('INF')", True), ("xs:date('2000-01-01')", "xs:date('2000-01-01')", True),
             ("xs:hexBinary('0A')", "xs:base64Binary('Cg==')", False), ("0.1", "0.1e0", False), ("xs:duration('P1D')", "xs:dayTimeDuration('PT24H')", True)]
-    for k1, k2, want in SAME:
+    for k1, k2, want in SAME + [(b, a, w) for a, b, w in SAME if a != b]:
         chk.evaluations += 1
         chk.count('same-key')
         desc = {'k1': k1, 'k2': k2, 'same_key_spec': want}
@@ -265,26 +270,136 @@ def run(chk):
                 ctor_dup = 'XQDY0137' in str(e.code)
             m12 = select(None, f"map:size(map:merge((map:entry({k1}, 1), map:entry({k2}, 2))))", item=1, parser=P)
             m21 = select(None, f"map:size(map:merge((map:entry({k2}, 1), map:entry({k1}, 2))))", item=1, parser=P)
+            rem = select(None, f"map:size(map:remove(map:entry({k1}, 1), {k2}))", item=1, parser=P)
             got = {'put_same': size == 1, 'contains': bool(cont), 'constructor_rejects_as_duplicate': ctor_dup,
-                   'merge_same': m12 == 1, 'merge_same_reversed': m21 == 1}
+                   'merge_same': m12 == 1, 'merge_same_reversed': m21 == 1, 'remove_same': rem == 0}
         except Exception as e:
             chk.violation('impl-raised', desc, repr(e)[:200])
             continue
-        exp = {'put_same': want, 'contains': want, 'constructor_rejects_as_duplicate': want, 'merge_same': want, 'merge_same_reversed': want}
+        exp = {'put_same': want, 'contains': want, 'constructor_rejects_as_duplicate': want, 'merge_same': want, 'merge_same_reversed': want,
+               'remove_same': want}
         if got != exp:
             # a listed finding is matched only by the exact deviation recorded for that key pair
             T, F = True, False
             KNOWN = {
-                ('true()', '1'): ('C15-key-boolean-integer', dict(put_same=T, contains=T, constructor_rejects_as_duplicate=T, merge_same=T, merge_same_reversed=T)),
-                ('false()', '0'): ('C15-key-boolean-integer', dict(put_same=T, contains=T, constructor_rejects_as_duplicate=T, merge_same=T, merge_same_reversed=T)),
-                ("xs:untypedAtomic('1')", '1'): ('C15-key-untyped-numeric', dict(put_same=T, contains=F, constructor_rejects_as_duplicate=F, merge_same=F, merge_same_reversed=F)),
-                ("xs:hexBinary('0A')", "xs:base64Binary('Cg==')"): ('C15-key-binary-types', dict(put_same=T, contains=T, constructor_rejects_as_duplicate=F, merge_same=F, merge_same_reversed=F)),
+                ('true()', '1'): ('C15-key-boolean-integer', dict(put_same=T, contains=T, constructor_rejects_as_duplicate=T, merge_same=T, merge_same_reversed=T, remove_same=T)),
+                ('false()', '0'): ('C15-key-boolean-integer', dict(put_same=T, contains=T, constructor_rejects_as_duplicate=T, merge_same=T, merge_same_reversed=T, remove_same=T)),
+                ('1', 'true()'): ('C15-key-boolean-integer', dict(put_same=T, contains=T, constructor_rejects_as_duplicate=T, merge_same=T, merge_same_reversed=T, remove_same=T)),
+                ('0', 'false()'): ('C15-key-boolean-integer', dict(put_same=T, contains=T, constructor_rejects_as_duplicate=T, merge_same=T, merge_same_reversed=T, remove_same=T)),
             }
             kf = KNOWN.get((k1, k2))
             if kf and got == kf[1]:
                 chk.known(kf[0], desc | {'impl': got})
             else:
                 chk.violation('impl-vs-spec', desc, {'impl': got, 'spec': exp})
+    # ---- typed keys: compare.same_key and map:put / remove / get / contains / size on maps keyed by every atomic family,
+    #      against C15.Keys (same_key_impl = the code as written, same_key_spec = op:same-key)
+    from elementpath.compare import same_key as impl_same_key
+    KEYS = [  # (XPath expression, Coq key)
+        ('0', 'KN TInteger (NFin 0 1)'), ('1', 'KN TInteger (NFin 1 1)'), ('2', 'KN TInteger (NFin 2 1)'),
+        ('1.0', 'KN TDecimal (NFin 10 10)'), ('1.5', 'KN TDecimal (NFin 15 10)'), ('0.1', 'KN TDecimal (NFin 1 10)'),
+        ('1e0', 'KN TDouble (NFin 1 1)'), ('1.5e0', 'KN TDouble (NFin 3 2)'),
+        ('0.1e0', 'KN TDouble (NFin 3602879701896397 36028797018963968)'), ('0e0', 'KN TDouble (NFin 0 1)'),
+        ("xs:double('NaN')", 'KN TDouble NNaN'), ("xs:double('INF')", 'KN TDouble NPInf'), ("xs:double('-INF')", 'KN TDouble NNInf'),
+        ("xs:float('1')", 'KN TFloat (NFin 1 1)'), ("xs:float('1.5')", 'KN TFloat (NFin 3 2)'), ("xs:float('NaN')", 'KN TFloat NNaN'),
+        ("xs:float('INF')", 'KN TFloat NPInf'),
+        ("'a'", 'KS FString 1'), ("'1'", 'KS FString 2'), ("'true'", 'KS FString 3'), ("''", 'KS FString 4'),
+        ("xs:anyURI('a')", 'KS FAnyURI 1'), ("xs:untypedAtomic('a')", 'KS FUntyped 1'), ("xs:untypedAtomic('1')", 'KS FUntyped 2'),
+        ("xs:untypedAtomic('true')", 'KS FUntyped 3'),
+        ('true()', 'KBool true'), ('false()', 'KBool false'),
+        ("xs:QName('a')", 'KQName 1'), ("xs:QName('b')", 'KQName 2'),
+        ("xs:hexBinary('0A')", 'KBin true 10'), ("xs:hexBinary('0a')", 'KBin true 10'), ("xs:base64Binary('Cg==')", 'KBin false 10'),
+        ("xs:hexBinary('0B')", 'KBin true 11'),
+        ("xs:date('2000-01-01')", 'KOther 1 1'), ("xs:date('2000-01-02')", 'KOther 1 2'), ("xs:dateTime('2000-01-01T00:00:00')", 'KOther 2 1'),
+        ("xs:time('00:00:00')", 'KOther 3 1'), ("xs:duration('P1D')", 'KOther 4 1'), ("xs:dayTimeDuration('PT24H')", 'KOther 4 1'),
+        ("xs:yearMonthDuration('P1Y')", 'KOther 4 2'), ("xs:duration('P12M')", 'KOther 4 2'), ("xs:gYear('2000')", 'KOther 5 1'),
+        ("xs:gYearMonth('2000-01')", 'KOther 6 1'), ("xs:gMonthDay('--01-01')", 'KOther 7 1'), ("xs:gDay('---01')", 'KOther 8 1'),
+        ("xs:gMonth('--01')", 'KOther 9 1'), ("xs:dateTime('2000-01-01T00:00:00Z')", 'KOther 2 2'), ("xs:dateTime('2000-01-01T01:00:00+01:00')", 'KOther 2 2'),
+    ]
+    BOOLNUM = {'true()', 'false()'}
+    NUM01 = {'0', '1', '1.0', '1e0', '0e0', "xs:float('1')"}
+
+    def in_bool_region(exprs):
+        return bool(BOOLNUM & set(exprs)) and bool(NUM01 & set(exprs))
+    kval = {}
+    for e, _ in KEYS:
+        try:
+            kval[e] = select(None, e)
+        except Exception as ex:
+            chk.violation('impl-raised', {'key': e}, repr(ex)[:200])
+    # (a) the relation itself, every ordered pair
+    pairs = [(a, b) for a in KEYS for b in KEYS if a[0] in kval and b[0] in kval]
+    rel = core.run_coq_cases('C15', IMPORTS, [f'run_same ({a[1]}) ({b[1]})' for a, b in pairs], chunk=600, tag='samekey') if model_ok else []
+    for (a, b), mo in zip(pairs, rel):
+        chk.evaluations += 1
+        chk.count('typed:same-key pair')
+        got = int(bool(impl_same_key(kval[a[0]], kval[b[0]])))
+        desc = {'same_key': [a[0], b[0]]}
+        if got != mo[0]:
+            chk.corr_fail.append((desc, got, mo[0]))
+        if got != mo[1]:
+            if got == mo[0] and in_bool_region([a[0], b[0]]):
+                chk.known('C15-key-boolean-integer', desc | {'impl': got, 'spec': mo[1]})
+            else:
+                chk.violation('impl-vs-spec', desc, {'impl': got, 'spec': mo[1], 'model': mo[0]})
+        chk.nontrivial.add(repr(('samekey', a[0], b[0])))
+    # (b) operation sequences over typed keys
+    tcases = []
+    for _ in range(150 if quick else 6000):
+        pool = rng.sample(KEYS, rng.randint(2, 6))
+        if rng.random() < 0.5:       # favour keys that are related to each other
+            pool += [k for k in KEYS if k[1].split()[0] == pool[0][1].split()[0]][:4]
+        ops = []
+        for _ in range(rng.randint(1, 6)):
+            if rng.random() < 0.7:
+                ops.append(('put', rng.choice(pool), [rng.randint(1, 9) for _ in range(rng.randint(1, 2))]))
+            else:
+                ops.append(('remove', [rng.choice(pool) for _ in range(rng.randint(0, 2))]))
+        tcases.append((ops, pool[:6]))
+    def top_lit(o):
+        if o[0] == 'put':
+            return f'TPut ({o[1][1]}) {vlit(o[2])}'
+        return 'TRemove [' + '; '.join(k[1] for k in o[1]) + ']'
+    tmodel = core.run_coq_cases('C15', IMPORTS, [f"run_tops [{'; '.join(top_lit(o) for o in ops)}] [{'; '.join(k[1] for k in probes)}]"
+                                                 for ops, probes in tcases], chunk=300, tag='tops') if model_ok else []
+    for (ops, probes), mo in zip(tcases, tmodel):
+        chk.evaluations += 1
+        chk.count('typed:op sequence')
+        expr = 'map{}'
+        for o in ops:
+            if o[0] == 'put':
+                expr = f"map:put({expr}, {o[1][0]}, ({', '.join(map(str, o[2]))}))"
+            else:
+                expr = f"map:remove({expr}, ({', '.join(k[0] for k in o[1])}))"
+        used = [o[1][0] for o in ops if o[0] == 'put'] + [k[0] for o in ops if o[0] == 'remove' for k in o[1]] + [k[0] for k in probes]
+        desc = {'expr': expr, 'probes': [k[0] for k in probes]}
+        try:
+            m = select(None, expr)
+            got = []
+            for k in probes:
+                c = select(None, 'map:contains($m, $k)', variables={'m': m, 'k': kval[k[0]]})
+                g = select(None, 'map:get($m, $k)', variables={'m': m, 'k': kval[k[0]]})
+                g2 = select(None, '$m($k)', variables={'m': m, 'k': kval[k[0]]})
+                g = g if isinstance(g, list) else [g]
+                g2 = g2 if isinstance(g2, list) else [g2]
+                if g != g2:
+                    chk.violation('impl-vs-spec', desc, {'key': k[0], 'map:get': repr(g), '$m($k)': repr(g2)})
+                got.append([int(bool(c))] + [int(x) for x in g])
+            got.append([len(m)])
+        except ElementPathError as e:
+            got = [['error', str(e.code)]]
+        except Exception as e:
+            chk.violation('impl-raised', desc, repr(e)[:300])
+            continue
+        mi, ms = [list(x) for x in mo[0]], [list(x) for x in mo[1]]
+        if got != mi:
+            chk.corr_fail.append((desc, got, mi))
+        if got != ms:
+            if got == mi and in_bool_region(used):
+                chk.known('C15-key-boolean-integer', desc | {'impl': got, 'spec': ms})
+            else:
+                chk.violation('impl-vs-spec', desc, {'impl': got, 'spec': ms, 'model': mi})
+        chk.nontrivial.add(repr(('tops', expr, tuple(k[0] for k in probes))))
     chk.rule = ('seeded operation sequences map:put / map:remove on integer-keyed maps with every key probed through map:get, $m($k), $m?($k), '
                 'map:contains, map:size; map:merge over 1-4 maps x 4 duplicate policies; array functions over an index grid -1..6 and random '
                 'arrays; operands bound to variables and snapshotted before/after every call; same-key table over key types; '
